@@ -1,9 +1,16 @@
 """C14 clauses (a) and (b)  (called from checks/c14.py).
 
 (a) every metadata object written by a tool carries the format's checksum: images produced by mke2fs (base profiles),
-    debugfs -w, tune2fs (-U, metadata_csum_seed, csum off/on), resize2fs (grow/shrink) and e2fsck -fyD are projected by
-    the independent reader (own crc32c/crc16, own seed / inode-number / generation folding) and TLC evaluates the conjunct
-    Csums of Ext4Abs!Consistent on every projection (lib/absstate.py).
+    debugfs -w, tune2fs (-U, metadata_csum_seed, csum off/on, -I), resize2fs (grow/shrink) and e2fsck -fyD are projected
+    by the independent reader (own crc32c/crc16, own seed / inode-number / generation folding) and TLC evaluates the
+    conjunct Csums of Ext4Abs!Consistent on every projection (lib/absstate.py).
+    The universe of images is stated by spec/CsumUniverse.tla and enumerated by TLC (Emit_CsumUniverse): the geometry
+    catalogue (descriptor size 32/64/128 x inode size 128/256/512 x crc16/crc32c x flex_bg), one populated pre-state per
+    geometry (gen/c14_rich.py) and, per operation, the object shapes whose checksum inputs the operation changes
+    (CsumUniverse!Required); a census of every pre-state by the independent reader is decided by TLC (CensusOK).
+    Journals WRITTEN by the tools (debugfs jo [-c [-v 2]] / jw / jc, recovery by e2fsck -fy and debugfs jr rewriting the
+    journal superblock, journals made by mke2fs -J and tune2fs -J) are decoded by the independent decoder of
+    gen/jbd2write.py + gen/c14_journal.py and TLC decides CsumUniverse!JournalOK per log (Trace_CsumUniverse).
 (b) a changed covered byte is detected: spec/CsumCoverage.tla states, per object type, which bytes the format covers
     (TLC checks it against the format's length formulas: MC_CsumCoverage); one bit of a byte of a live object is flipped in
     the real image; the reader says whether the stored checksum still matches; `e2fsck -fn` and the library read path of
@@ -14,7 +21,12 @@ from common import run as sh
 import build, tlc as T, tracecheck
 import mkbase, absstate
 sys.path.insert(0, os.path.join(VERIF, "reader"))
+sys.path.insert(0, os.path.join(VERIF, "gen"))
 import ext4read
+import c14_rich, c14_journal
+import jbd2write as J
+from common import Lock, SCRATCH
+import hashlib, re
 
 SPEC = os.path.join(VERIF, "spec")
 JOBS = max(2, min(12, NPROC - 4))
@@ -22,12 +34,45 @@ CSUM_PROFILES = ["ext4_1k", "ext4_4k", "ext4_old", "bigalloc", "meta_bg", "nofle
 NEW_UUID = "0f0e0d0c-0b0a-0908-0706-050403020100"
 
 
+# ------------------------------------------------------------------------------------------------ universe
+def load_universe(work):
+    """CsumUniverse as enumerated by TLC (cached by the text of the two modules: the universe is a function of the spec)"""
+    h = hashlib.sha256()
+    for m in ("CsumUniverse.tla", "Emit_CsumUniverse.tla", "Emit_CsumUniverse.cfg"):
+        h.update(open(os.path.join(SPEC, m), "rb").read())
+    cdir = os.path.join(SCRATCH, "verif-c14-universe"); os.makedirs(cdir, exist_ok=True)
+    out = os.path.join(cdir, h.hexdigest()[:16] + ".json")
+    stats = None
+    if not os.path.exists(out):
+        tmp = os.path.join(work, "universe.json")
+        r = T.tlc(os.path.join(SPEC, "Emit_CsumUniverse.tla"), os.path.join(SPEC, "Emit_CsumUniverse.cfg"), workers=1, timeout=600, env={"OUT": tmp}, xmx="2g")
+        if not r.ok or not os.path.exists(tmp):
+            die_broken("TLC could not enumerate the universe (Emit_CsumUniverse): %s\n%s" % (r.error, r.out[-1500:]))
+        os.replace(tmp, out)
+    U = json.load(open(out))
+    gk = lambda g: (g["dsize"], g["isize"], g["kind"], g["flex"])
+    U["cases"].sort(key=lambda c: (c["op"], gk(c["g"])))
+    U["mandatory_cases"].sort(key=lambda c: (c["op"], gk(c["g"])))
+    sk = lambda x: json.dumps(x, sort_keys=True)
+    U["scenarios"].sort(key=sk); U["mandatory_scenarios"].sort(key=sk)
+    U["req"] = {(r_["op"], r_["kind"]): sorted(r_["shapes"]) for r_ in U["required"]}
+    return U
+
+
 # ------------------------------------------------------------------------------------------------ clause (a)
-def derive(b, base_dir, prof, op, work):
+DEBUGFS_BASE = ["mkdir c14d", "write %(src)s c14d/new", "symlink c14d/sl /" + "t" * 200, "symlink c14d/fl short", "mknod c14d/p p",
+                "ea_set c14d/new user.c14 " + "v" * 300, "ea_set c14d user.dir 1", "punch big300k 20 60", "rm medium", "unlink tiny20",
+                "sif hello.txt mtime 1234567", "mkdir deep/c14sub", "ln hello.txt c14d/hl"]
+DEBUGFS_RICH = ["cd hi", "mkdir c14d", "write %(src)s c14d/new", "symlink c14d/sl /" + "t" * 200, "symlink c14d/fl short", "mknod c14d/p p",
+                "ea_set c14d/new user.c14 " + "v" * 700, "ea_set c14d user.dir " + "w" * 700, "punch ex 9 30", "rm xf", "sif slow mtime 1234567",
+                "mkdir ht/c14sub", "mkdir lin/c14sub", "ea_rm xd user.c14dir", "rm ht/n0007_" + c14_rich.LONG, "rm ht/n0008_" + c14_rich.LONG, "rm ht/n0009_" + c14_rich.LONG]
+
+
+def derive(b, src_img, tag, op, work, rich=False):
     """-> path of the derived image or None when the tool refused (a refusal carries no obligation)"""
     env = tool_env(b)
-    img = os.path.join(work, "a_%s_%s.img" % (prof, op))
-    shutil.copy(os.path.join(base_dir, prof + ".img"), img)
+    img = os.path.join(work, "a_%s_%s.img" % (tag, op))
+    shutil.copy(src_img, img)
     tune = os.path.join(b, "misc", "tune2fs"); fsck = os.path.join(b, "e2fsck", "e2fsck")
     rsz = os.path.join(b, "resize", "resize2fs"); dbg = os.path.join(b, "debugfs", "debugfs")
 
@@ -49,30 +94,35 @@ def derive(b, base_dir, prof, op, work):
         sh([fsck, "-fy", img], env=env, timeout=120)
         if not ok(sh([tune, "-O", "metadata_csum", img], env=env, timeout=120)): return None
         sh([fsck, "-fy", img], env=env, timeout=120)
+    elif op == "tune_I":
+        isz = ext4read.project(img)["geo"]["isize"]
+        sh([fsck, "-fy", img], env=env, timeout=120)            # tune2fs -I insists on a freshly checked filesystem
+        if not ok(sh([tune, "-I", str(2 * isz), img], env=env, timeout=300, input=b"y\n")): return None
     elif op == "resize_grow":
         sz = os.path.getsize(img)
         with open(img, "r+b") as f:
             f.truncate(sz + sz // 2)
         if not ok(sh([rsz, img], env=env, timeout=300)): return None
     elif op == "resize_shrink":
-        rc, out, err = sh([rsz, "-P", img], env=env, timeout=120)
-        try:
-            minb = int(out.decode().strip().split()[-1])
-        except Exception:
-            return None
         st = ext4read.project(img)["geo"]
-        tgt = max(minb + (st["blocks"] - minb) // 3, minb + 64)
+        if rich:
+            tgt = st["blocks"] - st["bpg"]                        # drop exactly the last group (where /hi lives)
+        else:
+            rc, out, err = sh([rsz, "-P", img], env=env, timeout=120)
+            try:
+                minb = int(out.decode().strip().split()[-1])
+            except Exception:
+                return None
+            tgt = max(minb + (st["blocks"] - minb) // 3, minb + 64)
         if tgt >= st["blocks"]: return None
         if not ok(sh([rsz, img, str(tgt)], env=env, timeout=300)): return None
     elif op == "fsck_D":
         if not ok(sh([fsck, "-fyD", img], env=env, timeout=300), (0, 1)): return None
     elif op == "debugfs":
-        src = os.path.join(work, "src_%s.bin" % prof)
+        src = os.path.join(work, "src_%s.bin" % tag)
         with open(src, "wb") as f:
             f.write(bytes((i * 29 + 3) & 255 for i in range(70000)))
-        cmds = ["mkdir c14d", "write %s c14d/new" % src, "symlink c14d/sl /" + "t" * 200, "symlink c14d/fl short", "mknod c14d/p p",
-                "ea_set c14d/new user.c14 " + "v" * 300, "ea_set c14d user.dir 1", "punch big300k 20 60", "rm medium", "unlink tiny20",
-                "sif hello.txt mtime 1234567", "mkdir deep/c14sub", "ln hello.txt c14d/hl"]
+        cmds = [c % {"src": src} if "%(src)s" in c else c for c in (DEBUGFS_RICH if rich else DEBUGFS_BASE)]
         rc, out, err = sh([dbg, "-w", "-f", "-", img], env=env, timeout=300, input=("\n".join(cmds) + "\n").encode())
         if rc != 0: return None
     else:
@@ -88,8 +138,34 @@ def n_checksummed(P):
     return n
 
 
-def clause_a(b, ev, vd, tier, work, rng):
+def rich_images(b, geoms):
+    """pre-state image per geometry (gen/c14_rich.py), cached next to the build like the base images"""
+    stamp = open(os.path.join(b, ".verif_stamp")).read().strip()[:16]
+    gen_h = hashlib.sha256(open(c14_rich.__file__.replace(".pyc", ".py"), "rb").read()).hexdigest()[:8]
+    outdir = os.path.join(b, "verif-c14rich-%s-%s" % (stamp, gen_h))
+    with Lock(os.path.join(b, "verif-c14rich.lock")):
+        for d in os.listdir(b):
+            if d.startswith("verif-c14rich-") and os.path.join(b, d) != outdir:
+                shutil.rmtree(os.path.join(b, d), ignore_errors=True)
+        os.makedirs(outdir, exist_ok=True)
+        meta_p = os.path.join(outdir, "meta.json")
+        meta = json.load(open(meta_p)) if os.path.exists(meta_p) else {}
+        todo = [g for g in geoms if c14_rich.name_of(g) not in meta]
+        if todo:
+            c14_rich.sources(outdir)
+            with cf.ThreadPoolExecutor(max_workers=JOBS) as ex:
+                for img, info in ex.map(lambda g: c14_rich.build(b, g, outdir), todo):
+                    meta[info["geom"]] = info
+            with open(meta_p + ".tmp", "w") as f:
+                json.dump(meta, f, indent=1)
+            os.replace(meta_p + ".tmp", meta_p)
+    return outdir, meta
+
+
+def clause_a(b, ev, vd, tier, work, rng, U):
     base_dir, info = mkbase.base_images(b)
+    env = tool_env(b)
+    # ---- (1) the shared base profiles (rich real-world content), every operation
     profs = [p for p in CSUM_PROFILES if info.get(p, {}).get("ok")]
     ops = ["base", "tune_U", "tune_seed_U", "tune_off_on", "resize_grow", "resize_shrink", "fsck_D", "debugfs"]
     cases = [(p, o) for p in profs for o in ops]
@@ -97,40 +173,248 @@ def clause_a(b, ev, vd, tier, work, rng):
         must = [(p, "base") for p in profs]
         rest = [c for c in cases if c[1] != "base"]
         rng.shuffle(rest)
-        cases = must + rest[:20]
-    with cf.ThreadPoolExecutor(max_workers=JOBS) as ex:
-        imgs = list(ex.map(lambda c: derive(b, base_dir, c[0], c[1], work), cases))
+        cases = must + rest[:12]
+    jobs = [dict(kind="prof", tag=p, op=o, src=os.path.join(base_dir, p + ".img"), rich=False, key="a|%s|%s" % (p, o)) for p, o in cases]
+    # an MMP filesystem (made here, used by clause (b) as well): its block checksum is seeded like everything else
+    mmp = os.path.join(work, "mmp.img")
+    rc, o, e = sh([os.path.join(b, "misc", "mke2fs"), "-q", "-F", "-t", "ext4", "-b", "1024", "-O", "mmp,metadata_csum", "-U", mkbase.UUID, mmp, "4096"], env=env, timeout=120)
+    if rc == 0:
+        jobs += [dict(kind="prof", tag="mmp", op=o_, src=mmp, rich=False, key="a|mmp|%s" % o_) for o_ in ("base", "tune_U")]
+    # ---- (2) the geometry / dependency universe of CsumUniverse
+    ucases = list(U["mandatory_cases"])
+    rest = [c for c in U["cases"] if c not in ucases]
+    if tier == "quick":
+        rng.shuffle(rest)
+        ucases += rest[:10]
+    else:
+        ucases += rest
+    geoms = {c14_rich.name_of(c["g"]): c["g"] for c in ucases}
+    # every pre-state of a non-base case is observed as a base case too (census, and the pre-state itself is tool-written)
+    have_base = {c14_rich.name_of(c["g"]) for c in ucases if c["op"] == "base"}
+    for n_, g in geoms.items():
+        if n_ not in have_base:
+            ucases.append({"op": "base", "g": g})
+    richdir, rmeta = rich_images(b, list(geoms.values()))
+    for n_ in geoms:
+        if not rmeta.get(n_, {}).get("ok"):
+            # a pre-state the tools cannot build consistently is itself tool output that e2fsck rejects; C07/C18 own that
+            # verdict -- here the universe element is reported as not decided, and a mandatory one breaks the check
+            ev.cov.setdefault("a_not_decided", []).append("%s: %s" % (n_, rmeta.get(n_, {}).get("step")))
+    for c in ucases:
+        n_ = c14_rich.name_of(c["g"])
+        if not rmeta.get(n_, {}).get("ok"):
+            if c in U["mandatory_cases"]:
+                die_broken("mandatory pre-state %s could not be built: %s" % (n_, rmeta.get(n_, {}).get("step")))
+            continue
+        jobs.append(dict(kind="rich", tag=n_, op=c["op"], g=c["g"], src=os.path.join(richdir, n_ + ".img"), rich=True, key="a|%s|%s" % (n_, c["op"])))
 
+    with cf.ThreadPoolExecutor(max_workers=JOBS) as ex:
+        imgs = list(ex.map(lambda j: derive(b, j["src"], j["tag"], j["op"], work, j["rich"]), jobs))
     with cf.ProcessPoolExecutor(max_workers=JOBS) as ex:
         projs = list(ex.map(proj_path, imgs))
     states, owners = [], []
     refused = 0
-    for c, P in zip(cases, projs):
+    pre = {}
+    for j, P, img in zip(jobs, projs, imgs):
         if P is None:
-            refused += 1; continue
-        if P.get("unsupported") or "fatal" in P:
-            ev.cov.setdefault("a_not_decided", []).append("%s/%s: %s" % (c[0], c[1], P.get("unsupported") or P.get("fatal")))
+            refused += 1
+            if j["kind"] == "rich" and {"op": j["op"], "g": j["g"]} in U["mandatory_cases"]:
+                die_broken("the tool refused the mandatory case %s" % j["key"])
             continue
-        states.append(P); owners.append(c)
+        if P.get("unsupported") or "fatal" in P:
+            ev.cov.setdefault("a_not_decided", []).append("%s: %s" % (j["key"], P.get("unsupported") or P.get("fatal")))
+            continue
+        states.append(P); owners.append(j)
+        if j["kind"] == "rich" and j["op"] == "base":
+            pre[j["tag"]] = (P, img)
     try:
         verdicts = absstate.evaluate(states, stats=ev.cov.setdefault("a_tlc", {}))
     except absstate.AbsStateError as e:
         die_broken("TLC failed while evaluating Ext4Abs!Consistent: %s" % e)
     nobj = 0
-    for c, P, v in zip(owners, states, verdicts):
+    for j, P, v in zip(owners, states, verdicts):
         nobj += n_checksummed(P)
         if "Csums" in v["failed"]:
             bad = {"sb": P["sb"].get("csum_ok"), "gd": [g["g"] for g in P["gd"] if not (g["csum_ok"] and g["bbcsum_ok"] and g["ibcsum_ok"])],
                    "inodes": [i["ino"] for i in P["inodes"] if not i["csum_ok"] or i["csum_err"]][:10],
-                   "xblocks": [x["blk"] for x in P["xblocks"] if not x["csum_ok"]], "dirs": [d["dir"] for d in P["dirs"] if d["csum_err"]][:10]}
-            vd.violation("a|%s|%s" % c, "after %s on profile %s an object does not carry the checksum the format defines: %s" % (c[1], c[0], json.dumps(bad)[:300]),
-                         {"clause": "a", "profile": c[0], "op": c[1], "bad": bad})
-        ev.nontrivial(("a",) + c)
+                   "xblocks": [x["blk"] for x in P["xblocks"] if not x["csum_ok"]], "dirs": [d["dir"] for d in P["dirs"] if d["csum_err"]][:10],
+                   "mmp": P["mmp"].get("csum_ok", True), "journal": P["journal"].get("csum_ok", True), "orphan_file": P["orphans"]["file"]["csum_err"][:5],
+                   "free_inodes": P.get("free_inode_csum_err", [])[:5]}
+            vd.violation(j["key"], "after %s on %s an object does not carry the checksum the format defines: %s" % (j["op"], j["tag"], json.dumps(bad)[:400]),
+                         {"clause": "a", "profile": j["tag"], "op": j["op"], "bad": bad})
+        ev.nontrivial(("a", j["tag"], j["op"]))
+    # ---- census: does every pre-state hold the witnesses the operation's changed inputs demand?  (TLC: CensusOK)
+    lines, who = [], []
+    for j, P in zip(owners, states):
+        if j["kind"] != "rich" or j["op"] == "base" or j["g"]["flex"] or j["tag"] not in pre:
+            continue
+        if not U["req"].get((j["op"], j["g"]["kind"])):
+            continue
+        P0, img0 = pre[j["tag"]]
+        ni, nb = (P["geo"]["inodes"], P["geo"]["blocks"]) if j["op"] == "resize_shrink" else (0, 0)
+        cnt = c14_rich.census(P0, open(img0, "rb").read(), ni, nb)
+        lines.append(json.dumps({"t": "census", "op": j["op"], "kind": j["g"]["kind"], "cnt": {k: cnt[k] for k in U["shapes"]}})); who.append(j)
+    res = validate_u(lines, os.path.join(work, "tvc"))
+    if res["broken"]:
+        die_broken("TLC failed on Trace_CsumUniverse (census): %s\n%s" % (res["broken"][0]["error"], res["broken"][0]["tail"][-1200:]))
+    ev.cov["states"] += res["distinct"]; ev.cov["transitions"] += res["generated"]
+    if res["UNCOVERED"]:
+        j = who[res["UNCOVERED"][0]]
+        die_broken("universe incomplete: the pre-state of %s lacks a witness CsumUniverse!Required demands: %s" % (j["key"], lines[res["UNCOVERED"][0]]))
+    ev.cov["a_census_lines"] = len(lines)
+    if lines:
+        ev.sample({"clause": "a", "census": json.loads(lines[-1])})
     ev.cov["a_images"] = len(states); ev.cov["a_refused"] = refused; ev.cov["a_checksummed_objects"] = nobj
+    ev.cov["a_geometries"] = len(geoms)
     ev.cov["states"] += len(states); ev.cov["transitions"] += len(states)
     if states:
-        ev.sample({"clause": "a", "profile": owners[0][0], "op": owners[0][1], "objects": n_checksummed(states[0]), "failed_conjuncts": verdicts[0]["failed"]})
-    return len(states)
+        ev.sample({"clause": "a", "profile": owners[0]["tag"], "op": owners[0]["op"], "objects": n_checksummed(states[0]), "failed_conjuncts": verdicts[0]["failed"]})
+    return len(states), {n_: (richdir, n_) for n_ in geoms if rmeta.get(n_, {}).get("ok")}, (mmp if rc == 0 else None)
+
+
+# ------------------------------------------------------------------------------------------------ clause (a), journals
+def _ranges(bl):
+    out, i = [], 0
+    while i < len(bl):
+        k = i
+        while k + 1 < len(bl) and bl[k + 1] == bl[k] + 1:
+            k += 1
+        out.append("%d-%d" % (bl[i], bl[k]) if k > i else "%d" % bl[i]); i = k + 1
+    return ",".join(out)
+
+
+def _content(i, magic, bs):
+    body = bytes(((i * 37 + k * 11 + 5) & 0xFF) for k in range(64)) * (bs // 64)
+    return (c14_journal.MAGIC_BYTES if magic else b"C14d") + body[4:bs]
+
+
+def journal_case(args):
+    """run one scenario of CsumUniverse!AllScenarios with the real tools, decode the log -> trace line (dict) or {"skip": why}"""
+    b, sc, work, idx = args
+    env = tool_env(b)
+    cfg = sc["cfg"]; bs = cfg["bs"]
+    img = os.path.join(work, "j%05d.img" % idx); dat1 = os.path.join(work, "j%05d.d1" % idx); dat2 = os.path.join(work, "j%05d.d2" % idx)
+    mk = os.path.join(b, "misc", "mke2fs"); tune = os.path.join(b, "misc", "tune2fs"); dbg = os.path.join(b, "debugfs", "debugfs"); fsck = os.path.join(b, "e2fsck", "e2fsck")
+    feats = ["extent", "metadata_csum" if cfg["mcsum"] else "^metadata_csum", "64bit" if cfg["b64"] else "^64bit"]
+    if not cfg["mcsum"]: feats.append("uninit_bg")
+    jsz = "1" if bs == 1024 else "4"
+    try:
+        rc, out, err = sh([mk, "-q", "-F", "-t", "ext4", "-b", str(bs), "-O", ",".join(feats), "-J", "size=" + jsz, "-U", mkbase.UUID, img, "8192"], env=env, timeout=120)
+        if rc != 0:
+            return {"skip": "mke2fs rc=%d" % rc}
+        if cfg["origin"] == "tune_J":
+            rc, out, err = sh([tune, "-O", "^has_journal", img], env=env, timeout=120)
+            rc2, out, err = sh([tune, "-J", "size=" + jsz, img], env=env, timeout=120)
+            if rc or rc2:
+                return {"skip": "tune2fs -J rc=%d/%d" % (rc, rc2)}
+        im = J.Image(img)
+        free = []
+        for g in range(im.ngroups):
+            free += im.free_blocks(g)
+        need = sc["n"] + sc["r"] + 3
+        if len(free) < need + 8:
+            return {"skip": "not enough free blocks"}
+        tb = free[-need:]
+        blks, rev, blks2, rev2 = tb[:sc["n"]], tb[sc["n"]:sc["n"] + sc["r"]], tb[-3:-1], tb[-1:]
+        truth = {}
+        with open(dat1, "wb") as f:
+            for i, pb in enumerate(blks, 1):
+                truth[pb] = _content(i, i in sc["magic"], bs); f.write(truth[pb])
+        with open(dat2, "wb") as f:
+            for i, pb in enumerate(blks2, 1):
+                truth[pb] = _content(1000 + i, i == 2, bs); f.write(truth[pb])
+        cmds = ["jo" + {"none": "", "c": " -c", "c2": " -c -v 2"}[cfg["req"]]]
+        if sc["n"] + sc["r"] > 0:
+            cmds.append("jw" + (" -b " + _ranges(blks) if blks else "") + (" -r " + _ranges(rev) if rev else "") + (" " + dat1 if blks else ""))
+        if sc["second"] != "none":
+            # one jw per jo .. jc session, as every in-tree user of the writer does (the writer only guesses where a transaction
+            # ends, jo finds the real head again)
+            cmds += ["jc", "jo", "jw -b %s -r %s%s %s" % (_ranges(blks2), _ranges(rev2), " -c" if sc["second"] == "nocommit" else "", dat2)]
+        cmds.append("jc")
+        if sc["after"] == "jr":
+            cmds.append("jr")
+        rc, out, err = sh([dbg, "-w", "-f", "-", img], env=env, timeout=300, input=("\n".join(cmds) + "\n").encode())
+        tool_err = ""
+        if rc != 0 or b"while " in err:
+            tool_err = "debugfs rc=%d %s" % (rc, err.decode("utf8", "replace")[-200:])
+        if sc["after"] == "fsck":
+            rc, out, err = sh([fsck, "-fy", img], env=env, timeout=300)
+            if rc not in (0, 1):
+                tool_err = "e2fsck -fy rc=%d" % rc
+        j = c14_journal.walk(img)
+        for o in j["objs"]:
+            data = o.pop("_data", None)
+            o["want_esc"] = 0; o["data_ok"] = 1
+            if o["k"] == "tag":
+                t = truth.get(o["blk"])
+                if t is None:
+                    o["data_ok"] = 0
+                else:
+                    o["want_esc"] = int(t[:4] == c14_journal.MAGIC_BYTES)
+                    o["data_ok"] = int(data == ((b"\0\0\0\0" + t[4:]) if o["want_esc"] else t))
+        if tool_err:
+            j["err"].append(tool_err)
+        return {"t": "journal", "sc": sc, "j": j}
+    finally:
+        for p_ in (img, dat1, dat2):
+            try: os.unlink(p_)
+            except OSError: pass
+
+
+def clause_a_journal(b, ev, vd, tier, work, rng, U):
+    scen = list(U["mandatory_scenarios"])
+    rest = [s_ for s_ in U["scenarios"] if s_ not in scen]
+    if tier == "quick":
+        rng.shuffle(rest)
+        scen += rest[:24]
+    else:
+        scen += rest
+    with cf.ProcessPoolExecutor(max_workers=JOBS) as ex:
+        res = list(ex.map(journal_case, [(b, s_, work, i) for i, s_ in enumerate(scen)], chunksize=2))
+    lines, keep, skipped = [], [], 0
+    for s_, r_ in zip(scen, res):
+        if "skip" in r_:
+            skipped += 1
+            if s_ in U["mandatory_scenarios"]:
+                die_broken("mandatory journal scenario could not be set up: %s (%s)" % (r_["skip"], json.dumps(s_)))
+            continue
+        lines.append(json.dumps(r_)); keep.append((s_, r_))
+    res2 = validate_u(lines, os.path.join(work, "tvj"), chunk=40)
+    if res2["broken"]:
+        die_broken("TLC failed on Trace_CsumUniverse (journals): %s\n%s" % (res2["broken"][0]["error"], res2["broken"][0]["tail"][-1200:]))
+    ev.cov["states"] += res2["distinct"]; ev.cov["transitions"] += res2["generated"]
+
+    def sckey(s_):
+        c = s_["cfg"]
+        return "mcsum%d.b64%d.bs%d.%s.%s|n%d.m%s.r%d.%s.%s" % (c["mcsum"], c["b64"], c["bs"], c["req"], c["origin"], s_["n"], "_".join(map(str, s_["magic"])) or "-", s_["r"], s_["second"], s_["after"])
+
+    def describe(r_):
+        j = r_["j"]
+        badobj = [{k: o[k] for k in ("k", "seq", "st", "fm", "blk", "esc", "want_esc", "logmagic", "data_ok")} for o in j["objs"]
+                  if o["st"] != o["fm"] or (o["k"] == "tag" and (o["logmagic"] or bool(o["esc"]) != bool(o["want_esc"]) or not o["data_ok"]))]
+        return "ver %d start %d tags %d descs %d revoked %d commits %d err %s; objects off the format: %s" % (
+            j["ver"], j["start"], j["tags"], j["descs"], j["revoked"], j["commits"], j["err"], json.dumps(badobj[:4]))
+    for i in res2["DEVLINE"]:
+        s_, r_ = keep[i]
+        vd.violation("a|journal|DevV1CommitCoversRevoke", "journal scenario %s: %s" % (sckey(s_), describe(r_)), {"clause": "a-journal", "scenario": s_, "decoded": _slim(r_["j"])})
+    for i in res2["BADLINE"]:
+        s_, r_ = keep[i]
+        vd.violation("a|journal|%s" % sckey(s_), "the journal the tools wrote for scenario %s is not what the jbd2 format defines: %s" % (sckey(s_), describe(r_)),
+                     {"clause": "a-journal", "scenario": s_, "decoded": _slim(r_["j"])})
+    nobj = 0
+    for s_, r_ in keep:
+        nobj += len(r_["j"]["objs"]); ev.nontrivial(("aj", sckey(s_)))
+    ev.cov["a_journals"] = len(lines); ev.cov["a_journal_objects"] = nobj; ev.cov["a_journal_skipped"] = skipped
+    ev.cov["a_journal_universe"] = len(U["scenarios"])
+    if keep:
+        s_, r_ = keep[0]
+        ev.sample({"clause": "a-journal", "scenario": sckey(s_), "objects": len(r_["j"]["objs"]), "tags": r_["j"]["tags"], "ver": r_["j"]["ver"]})
+    return len(lines)
+
+
+def _slim(j):
+    d = dict(j); d["objs"] = j["objs"][:6]
+    return d
 
 
 def proj_path(p):
@@ -197,8 +481,9 @@ def other_errors(P):
     return out
 
 
-def objects(P, img):
-    """live checksummed objects of an image: list of dict(type, name, base (byte offset in the image), lib request, params)"""
+def objects(P, img, rich=False):
+    """live checksummed objects of an image: list of dict(type, name, base (byte offset in the image), lib request, params).
+    rich: an image of gen/c14_rich.py -- inodes and directory blocks are chosen per shape of CsumUniverse!Shapes below /hi"""
     geo = P["geo"]; loc = P["loc"]; bs = geo["bs"]
     if geo["csum"] == "none":
         return []
@@ -223,6 +508,9 @@ def objects(P, img):
         return out
     inodes = {i["ino"]: i for i in P["inodes"]}
     want = [2, 8]
+    hi = {t["path"]: t["ino"] for t in P["tree"] if t["path"].startswith("/hi")} if rich else {}
+    if rich:
+        want = [hi[k] for k in ("/hi", "/hi/ht", "/hi/ex", "/hi/xd") if k in hi]
     for i in P["inodes"]:
         if i["type"] == "reg" and i["own"]["index"] and len(want) < 4: want.append(i["ino"])
     for i in P["inodes"]:
@@ -246,10 +534,16 @@ def objects(P, img):
         add("extblk", "extblk%s" % blk, off, "extents %d" % ino, ehmax=ehmax)
     # directory blocks: leaf vs dx node
     nleaf = ndx = 0
+    seen_shape = set()
     for key, off in loc.get("dirblk", {}).items():
         ino, l = (int(x) for x in key.split(":"))
         I = inodes.get(ino)
         if I is None or I.get("inline"): continue
+        if rich:
+            # one block per shape, owned by a directory below /hi (the linear one's emptied block, the htree's root / interior node / leaf)
+            shp = c14_rich.dirblock_shape(raw, off, bs, "INDEX" in I["flags"], l)
+            if ino not in hi.values() or shp in seen_shape: continue
+            seen_shape.add(shp)
         blk = off // bs
         indexed = "INDEX" in I["flags"]
         ino0, rl0 = struct.unpack_from("<IH", raw, off)
@@ -265,7 +559,7 @@ def objects(P, img):
             add("dxnode", "dx%d:%d" % (ino, l), off, "dirblock %d %d" % (ino, blk), coff=coff, count=count, tail=tail); ndx += 1
         elif nleaf < 3:
             add("dirleaf", "dir%d:%d" % (ino, l), off, "dirblock %d %d" % (ino, blk)); nleaf += 1
-    for x in P["xblocks"][:2]:
+    for x in (sorted(P["xblocks"], key=lambda x: 0 if rich and x["referrers"] and x["referrers"][0] == hi.get("/hi/xd") else 1)[:1] if rich else P["xblocks"][:2]):
         if str(x["blk"]) in loc.get("xblk", {}) and x["referrers"]:
             add("xblk", "xblk%d" % x["blk"], loc["xblk"][str(x["blk"])], "xattr %d %d" % (x["referrers"][0], x["blk"]))
     if P["mmp"].get("present") and "mmp" in loc:
@@ -279,18 +573,18 @@ def obj_size(o):
     return {"sb": 1024, "mmp": 1024, "jsb": 1024, "gd": o["dsize"], "inode": o["isize"]}.get(o["type"], o["bs"])
 
 
-def offsets(o, tier, rng, full):
+def offsets(o, tier, rng, full, few=False):
     n = obj_size(o)
     if full:
         return list(range(n))
     edges = {0, 1, n - 1, n - 2}
-    fields = {"sb": [1019, 1020, 1023, 0x3A, 0x68, 0x175], "gd": [29, 30, 31, 32, 0x18, 0x1C], "inode": [0, 4, 0x1A, 0x28, 123, 124, 125, 126, 127, 128, 129, 130, 131, 132],
+    fields = {"sb": [1019, 1020, 1023, 0x3A, 0x68, 0x175], "gd": [29, 30, 31, 32, 0x18, 0x1C, 0x3A, 63, 64, 65, 96, 127], "inode": [0, 4, 0x1A, 0x28, 123, 124, 125, 126, 127, 128, 129, 130, 131, 132, 255, 256, 511],
               "extblk": [4, 6, 11, 12, 12 + 12 * o["ehmax"] - 1, 12 + 12 * o["ehmax"], 12 + 12 * o["ehmax"] + 3],
               "dirleaf": [4, 8, o["bs"] - 13, o["bs"] - 12, o["bs"] - 8, o["bs"] - 4], "xblk": [0, 4, 15, 16, 19, 20, 32],
               "dxnode": [o["coff"], o["coff"] + 2, o["coff"] + 8 * o["count"] - 1, o["coff"] + 8 * o["count"], o["tail"] - 1, o["tail"], o["tail"] + 3, o["tail"] + 4, o["tail"] + 7],
               "bb": [o["nbytes"] - 1, o["nbytes"]], "ib": [o["nbytes"] - 1, o["nbytes"]], "mmp": [1019, 1020, 4, 8], "jsb": [251, 252, 255, 256, 12, 0x30]}
     s = {x for x in edges | set(fields.get(o["type"], [])) if 0 <= x < n}
-    k = 6 if tier == "quick" else 24
+    k = (3 if few else 6) if tier == "quick" else 24
     s |= {rng.randrange(n) for _ in range(k)}
     return sorted(s)
 
@@ -322,6 +616,13 @@ def flip_case(args):
         lib = {"err": -1, "msg": "driver died rc=%s" % pr.returncode}
         if pr.returncode == 0 and pr.stdout.strip():
             lib = json.loads(pr.stdout.decode().splitlines()[-1])
+        if o["type"] == "jsb" and lib["err"] == 0:
+            # libext2fs itself never reads the journal superblock; the journal loader every library user shares is
+            # debugfs/journal.c (ext2fs_open_journal): run it last, on this scratch copy
+            rcj, outj, errj = sh([os.path.join(b, "debugfs", "debugfs"), "-w", "-f", "-", p], env=env, timeout=120, input=b"jo\njc\n")
+            msg = (outj + errj).decode("utf8", "replace")
+            if "while opening journal" in msg:
+                lib = {"err": 1, "msg": [l for l in msg.splitlines() if "while opening journal" in l][0][:200]}
         txt = out.decode("utf8", "replace")
         return dict(stale=stale, fsck=rc, lib=int(lib["err"] != 0), libmsg=lib.get("msg", ""), fsck_tail=txt[-300:],
                     fsck_reported=int("hecksum" in txt or "csum" in txt))
@@ -329,7 +630,7 @@ def flip_case(args):
         os.unlink(p)
 
 
-def clause_b(b, ev, vd, tier, work, rng):
+def clause_b(b, ev, vd, tier, work, rng, rich, mmp):
     drv = build.driver(b, "csumdrv")
     # the coverage function against the format's length formulas
     r = T.tlc(os.path.join(SPEC, "MC_CsumCoverage.tla"), os.path.join(SPEC, "MC_CsumCoverage.cfg"), workers=2, timeout=600, xmx="2g")
@@ -342,12 +643,18 @@ def clause_b(b, ev, vd, tier, work, rng):
     profs = ["ext4_1k", "ext4_old", "ext4_4k", "noflex"] if tier == "quick" else [p for p in CSUM_PROFILES]
     profs = [p for p in profs if info.get(p, {}).get("ok")]
     imgs = {p: os.path.join(base_dir, p + ".img") for p in profs}
-    # an MMP filesystem and a journal with checksums (not among the base profiles)
+    # an MMP filesystem (made by clause (a))
     env = tool_env(b)
-    mmp = os.path.join(work, "mmp.img")
-    rc, o, e = sh([os.path.join(b, "misc", "mke2fs"), "-q", "-F", "-t", "ext4", "-b", "1024", "-O", "mmp,metadata_csum", "-U", mkbase.UUID, mmp, "4096"], env=env, timeout=120)
-    if rc == 0:
+    if mmp:
         imgs["mmp"] = mmp; profs.append("mmp")
+    # geometry: the sizes the covered range depends on (CsumUniverse!DescSizes / InodeSizes, both kinds), on the populated
+    # pre-states of clause (a); quick: the largest and the smallest geometry and the crc16 one with the largest descriptor
+    rnames = sorted(n_ for n_ in rich if n_.endswith("_noflex"))
+    if tier == "quick":
+        rnames = [n_ for n_ in rnames if n_ in ("g128_i512_crc32c_noflex", "g32_i128_crc32c_noflex", "g128_i128_crc16_noflex")]
+    isrich = set()
+    for n_ in rnames:
+        imgs[n_] = os.path.join(rich[n_][0], n_ + ".img"); profs.append(n_); isrich.add(n_)
     cases = []
     full_done = set()
     for p in profs:
@@ -355,10 +662,13 @@ def clause_b(b, ev, vd, tier, work, rng):
         if not P or P.get("unsupported") or "fatal" in P:
             ev.cov.setdefault("b_not_decided", []).append(p); continue
         before = (markers(P), other_errors(P))
-        for o in objects(P, imgs[p]):
-            full = tier == "thorough" and o["type"] not in full_done and obj_size(o) <= 1024
-            if full: full_done.add(o["type"])
-            for off in offsets(o, tier, rng, full):
+        objs = objects(P, imgs[p], p in isrich)
+        if tier == "quick" and p in isrich and p != "g128_i512_crc32c_noflex":
+            objs = [o for o in objs if o["type"] in ("gd", "bb", "ib", "inode")]      # what depends on the descriptor / inode size
+        for o in objs:
+            full = tier == "thorough" and (o["type"], o["dsize"], o["isize"]) not in full_done and obj_size(o) <= 1024
+            if full: full_done.add((o["type"], o["dsize"], o["isize"]))
+            for off in offsets(o, tier, rng, full, p in isrich):
                 cases.append((p, o, off, rng.randrange(8), before))
     with cf.ProcessPoolExecutor(max_workers=JOBS) as ex:
         res = list(ex.map(flip_case, [(b, imgs[p], o, off, bit, before, work, i) for i, (p, o, off, bit, before) in enumerate(cases)], chunksize=4))
@@ -400,7 +710,21 @@ def clause_b(b, ev, vd, tier, work, rng):
 
 def validate_b(lines, workdir, chunk=400):
     """like tracecheck.validate_lines, additionally collecting DISAGREE lines"""
-    import re
+    r = validate_tagged(lines, workdir, "Trace_CsumCoverage", ("BADLINE", "DISAGREE"), chunk)
+    return dict(bad=r["BADLINE"], disagree=r["DISAGREE"], broken=r["broken"], distinct=r["distinct"], generated=r["generated"])
+
+
+def validate_u(lines, workdir, chunk=200):
+    return validate_tagged(lines, workdir, "Trace_CsumUniverse", ("BADLINE", "DEVLINE", "UNCOVERED"), chunk)
+
+
+def validate_tagged(lines, workdir, module, tags, chunk):
+    """independent lines validated by one TLC run per chunk; the trace spec prints <<TAG, line>> for a failing line and goes on"""
+    os.makedirs(workdir, exist_ok=True)
+    out = {t: [] for t in tags}
+    out.update(broken=[], distinct=0, generated=0)
+    if not lines:
+        return out
     tasks, spans = [], []
     for ci, i in enumerate(range(0, len(lines), chunk)):
         p = os.path.join(workdir, "lines%05d.ndjson" % ci)
@@ -410,22 +734,87 @@ def validate_b(lines, workdir, chunk=400):
         tasks.append(p); spans.append(i)
 
     def one(p):
-        r = T.tlc(os.path.join(SPEC, "Trace_CsumCoverage.tla"), os.path.join(SPEC, "Trace_CsumCoverage.cfg"), workers=1, timeout=900, env={"TRACE": p}, xmx="2g")
-        return dict(bad=[int(x) for x in re.findall(r'<<"BADLINE", (\d+)>>', r.out)], dis=[int(x) for x in re.findall(r'<<"DISAGREE", (\d+)>>', r.out)],
-                    complete=(r.rc == 0 and r.violated is None and r.error is None), error=r.error or r.violated, tail=r.out[-2000:], distinct=r.distinct, generated=r.generated)
+        r = T.tlc(os.path.join(SPEC, module + ".tla"), os.path.join(SPEC, module + ".cfg"), workers=1, timeout=900, env={"TRACE": p}, xmx="2g")
+        d = {t: [int(x) for x in re.findall(r'<<"%s", (\d+)>>' % t, r.out)] for t in tags}
+        d.update(complete=(r.rc == 0 and r.violated is None and r.error is None), error=r.error or r.violated, tail=r.out[-2000:], distinct=r.distinct, generated=r.generated)
+        return d
     with cf.ThreadPoolExecutor(max_workers=JOBS) as ex:
         res = list(ex.map(one, tasks))
-    bad, dis, broken, d, g = [], [], [], 0, 0
     for base, r in zip(spans, res):
-        d += r["distinct"]; g += r["generated"]
+        out["distinct"] += r["distinct"]; out["generated"] += r["generated"]
         if not r["complete"]:
-            broken.append(r); continue
-        bad += [base + k - 1 for k in r["bad"]]; dis += [base + k - 1 for k in r["dis"]]
-    return dict(bad=sorted(set(bad)), disagree=sorted(set(dis)), broken=broken, distinct=d, generated=g)
+            out["broken"].append(r); continue
+        for t in tags:
+            out[t] += [base + k - 1 for k in r[t]]
+    for t in tags:
+        out[t] = sorted(set(out[t]))
+    return out
 
 
 def run(b, ev, vd, tier, work, rng):
-    na = clause_a(b, ev, vd, tier, work, rng)
-    nb = clause_b(b, ev, vd, tier, work, rng)
-    ev.cov["clauses_a_b"] = "evaluated: %d tool-produced images (a), %d byte flips (b)" % (na, nb)
-    return na + nb
+    U = load_universe(work)
+    na, rich, mmp = clause_a(b, ev, vd, tier, work, rng, U)
+    nj = clause_a_journal(b, ev, vd, tier, work, rng, U)
+    nb = clause_b(b, ev, vd, tier, work, rng, rich, mmp)
+    ev.cov["clauses_a_b"] = "evaluated: %d tool-produced images and %d tool-written journals (a), %d byte flips (b)" % (na, nj, nb)
+    ev.cov["a_universe"] = {"image_cases": len(U["cases"]), "mandatory_image_cases": len(U["mandatory_cases"]),
+                            "journal_scenarios": len(U["scenarios"]), "mandatory_journal_scenarios": len(U["mandatory_scenarios"])}
+    return na + nj + nb
+
+
+
+def replay_one(b, rp, work):
+    """one saved universe element of clause (a) (image case or journal scenario) or (b) (byte flip) again"""
+    cl = rp.get("clause")
+    if cl == "a-journal":
+        r_ = journal_case((b, rp["scenario"], work, 0))
+        if "skip" in r_:
+            die_broken("scenario could not be set up: " + r_["skip"])
+        res = validate_u([json.dumps(r_)], os.path.join(work, "tvr"))
+        if res["broken"]:
+            die_broken("TLC failed: %s" % res["broken"][0]["error"])
+        return {"violated": bool(res["BADLINE"] or res["DEVLINE"]), "deviation": bool(res["DEVLINE"]), "decoded": _slim(r_["j"])}
+    if cl == "a":
+        tag, op = rp["profile"], rp["op"]
+        env = tool_env(b)
+        if tag == "mmp":
+            src = os.path.join(work, "mmp.img")
+            sh([os.path.join(b, "misc", "mke2fs"), "-q", "-F", "-t", "ext4", "-b", "1024", "-O", "mmp,metadata_csum", "-U", mkbase.UUID, src, "4096"], env=env, timeout=120)
+            rich = False
+        elif tag.startswith("g") and "_i" in tag:
+            m = re.match(r"g(\d+)_i(\d+)_(crc16|crc32c)_(flex|noflex)$", tag)
+            g = dict(dsize=int(m.group(1)), isize=int(m.group(2)), kind=m.group(3), flex=int(m.group(4) == "flex"))
+            rdir, meta = rich_images(b, [g])
+            src = os.path.join(rdir, tag + ".img"); rich = True
+        else:
+            base_dir, info = mkbase.base_images(b)
+            src = os.path.join(base_dir, tag + ".img"); rich = False
+        img = derive(b, src, tag, op, work, rich)
+        if img is None:
+            return {"violated": False, "note": "the tool refused"}
+        P = proj_path(img)
+        v = absstate.evaluate([P])[0]
+        return {"violated": "Csums" in v["failed"], "failed": v["failed"], "markers": sorted(markers(P) or [])[:20]}
+    if cl == "b":
+        tag = rp["profile"]
+        if tag == "mmp":
+            src = os.path.join(work, "mmp.img")
+            sh([os.path.join(b, "misc", "mke2fs"), "-q", "-F", "-t", "ext4", "-b", "1024", "-O", "mmp,metadata_csum", "-U", mkbase.UUID, src, "4096"], env=tool_env(b), timeout=120)
+        elif tag.startswith("g") and "_i" in tag:
+            m = re.match(r"g(\d+)_i(\d+)_(crc16|crc32c)_(flex|noflex)$", tag)
+            g = dict(dsize=int(m.group(1)), isize=int(m.group(2)), kind=m.group(3), flex=int(m.group(4) == "flex"))
+            rdir, meta = rich_images(b, [g]); src = os.path.join(rdir, tag + ".img")
+        else:
+            base_dir, info = mkbase.base_images(b); src = os.path.join(base_dir, tag + ".img")
+        build.driver(b, "csumdrv")
+        P = proj_path(src)
+        before = (markers(P), other_errors(P))
+        o = rp["object"]
+        r_ = flip_case((b, src, o, rp["off"], rp["bit"], before, work, 0))
+        d = {k: o[k] for k in ("type", "isize", "hi", "dsize", "nbytes", "ehmax", "bs", "coff", "count", "tail")}
+        d.update(off=rp["off"], stale=r_["stale"], fsck=r_["fsck"], lib=r_["lib"])
+        res = validate_b([json.dumps(d)], os.path.join(work, "tvr"))
+        if res["broken"]:
+            die_broken("TLC failed: %s" % res["broken"][0]["error"])
+        return {"violated": bool(res["bad"]), "result": r_}
+    die_broken("unknown replay clause %r" % (cl,))
